@@ -550,6 +550,19 @@ def shift_arms(proj, rep, canon):
                     chain = node
                     break
     n = 0
+    # the shift is applied for EVERY non-zero delta (negative shifts move a circuit down)
+    guard = next((x for x in f.node.body if isinstance(x, ast.If) and 'delta' in ast.unparse(x.test)), None)
+    if guard is not None:
+        t = ast.unparse(guard.test).replace(' ', '')
+        n += 1
+        if t in ('delta!=0', '0!=delta', 'delta'):
+            rep.ok('D3', fq, 'index shift applied for every non-zero delta', cm, guard, text='shift guard')
+        elif t in ('delta>0', '0<delta', 'delta>=1'):
+            rep.violation('D3', fq, f'`if {ast.unparse(guard.test)}:` ignores negative shifts: the circuit keeps acting on the old qubits after shift_qubit_index_(-k)', cm, guard,
+                          text='shift guard')
+        else:
+            rep.undecided('D3', fq, f'guard `{t}` not recognised', cm, guard, text='shift guard')
+            n -= 1
     if chain is None:
         rep.undecided('D3', fq, 'kind dispatch chain not found', cm, f.node, text='shift chain')
         return 1
@@ -741,4 +754,57 @@ def a8(proj, rep, modules):
                     rep.undecided('A8', fi.qual, f'dispatch condition `{test[:50]}` not recognised', m, node)
                     n -= 1
     rep.count('A8.logm_dispatch_sites', n)
+    return n
+
+
+
+# ------------------------------------------------------------------------------------------------ A9
+RULES['A9'] = ('A9: `ctx.needs_input_grad[k]` is indexed with the position of the forward argument it is about: for forward(ctx, *args) with the documented layout '
+               '(*gate tensors, q0, info) the state is args[-2]; testing slot -1 (the non-tensor info dict, never differentiable) makes the condition constant '
+               'False, so the gradient w.r.t. the input state is silently dropped.')
+
+
+def a9(proj, rep):
+    rep.rule('A9', RULES['A9'])
+    n = 0
+    for ci in autograd_functions(proj):
+        fwd, bwd = ci.methods.get('forward'), ci.methods.get('backward')
+        if fwd is None or bwd is None:
+            continue
+        m = ci.module
+        # positions of forward args that are unpacked from *args by literal negative index
+        slot_of = {}
+        for s in ast.walk(fwd.node):
+            if isinstance(s, ast.Assign) and isinstance(s.targets[0], ast.Name) and isinstance(s.value, ast.Subscript) and isinstance(s.value.value, ast.Name) \
+                    and s.value.value.id == 'args':
+                try:
+                    slot_of[ast.literal_eval(s.value.slice)] = s.targets[0].id
+                except Exception:
+                    pass
+        for x in ast.walk(bwd.node):
+            if isinstance(x, ast.Subscript) and ast.unparse(x.value) == 'ctx.needs_input_grad':
+                n += 1
+                rep.touch(m)
+                try:
+                    k = ast.literal_eval(x.slice)
+                except Exception:
+                    rep.undecided('A9', f'{ci.qual}.backward', f'`{ast.unparse(x)}`: non-literal slot', m, x)
+                    n -= 1
+                    continue
+                name = slot_of.get(k)
+                # which variable is the gradient being conditioned?
+                st = x
+                while not isinstance(st, ast.stmt):
+                    st = st._parent
+                txt = ast.unparse(st)
+                if name is None:
+                    rep.undecided('A9', f'{ci.qual}.backward', f'`{ast.unparse(x)}`: forward does not name args[{k}]', m, st)
+                    n -= 1
+                elif f'{name}_grad' in txt or name in txt:
+                    rep.ok('A9', f'{ci.qual}.backward', f'needs_input_grad[{k}] guards the gradient of forward argument `{name}`', m, st)
+                else:
+                    other = [v for v in slot_of.values() if f'{v}_grad' in txt]
+                    rep.violation('A9', f'{ci.qual}.backward', f'`{txt[:90]}` conditions the gradient of `{other[0] if other else "?"}` on needs_input_grad[{k}], which is the forward '
+                                  f'argument `{name}` (args[{k}]): for a non-tensor argument this is always False, so that gradient is never returned', m, st)
+    rep.count('A9.needs_input_grad_uses', n)
     return n
